@@ -102,6 +102,14 @@ func c08Spec(c c08Case) idp.ResponseSpec {
 		a.AttrStatements = [][]idp.AttrSpec{{{Name: "dup-values", Values: []string{"x", "x", ""}}}}
 	case 4:
 		a.AttrStatements = [][]idp.AttrSpec{{{Name: "urn:oid:0.9.2342.19200300.100.1.1", FriendlyName: "uid", Values: []string{"alice"}}, {Name: "uid", FriendlyName: "urn:oid:0.9.2342.19200300.100.1.1", Values: []string{"not-alice"}}}}
+	case 6:
+		// a long list: one attribute with 600 values (the assertion has more than 600 elements,
+		// the Response fewer than 1000)
+		vals := make([]string, 600)
+		for i := range vals {
+			vals[i] = fmt.Sprintf("group-%03d", i)
+		}
+		a.AttrStatements = [][]idp.AttrSpec{{{Name: "memberOf", Values: vals}, {Name: "uid", Values: []string{"alice"}}}}
 	case 5:
 		// the same Name on two Attribute elements (distinguished by NameFormat), and once more
 		a.AttrStatements = [][]idp.AttrSpec{{
@@ -443,7 +451,7 @@ func c08Gen(ch *mc.Chooser) c08Case {
 	c.Comments = ch.Choose("comments", 5)
 	c.N = 1 + ch.Choose("n", 3)
 	c.TwoStmts = ch.Bool("two-statements")
-	c.AttrShape = ch.Choose("attr-shape", 6)
+	c.AttrShape = ch.Choose("attr-shape", 7)
 	c.Authn = ch.Choose("authn", 6)
 	c.NoInResp = ch.Bool("no-inresponseto")
 	c.NameID = ch.Choose("nameid", len(c08Values))
@@ -521,7 +529,7 @@ func c08Cases(r *mc.Run) []c08Case {
 }
 
 func c08Run(r *mc.Run) {
-	r.Rule = "full product signing placement(3) x signature method(4) x digest(4) x canonicaliser(6) on the default document, plus the full product (placement both) Response canonicaliser(6) x assertion canonicaliser(same + 6) x signed comments(3) x 1-2 assertions x which assertions carry their own signature(3) x InclusiveNamespaces list(2), plus every combination of <=2 (quick) / <=3 (thorough) deviations over 31 layout/content dimensions (no AttributeStatement at all with AllowMissingAttributes, placement, c14n, a different assertion c14n, partially signed assertions, 4 prefix styles, pretty-printing, DEFLATE, 11 lexical re-layouts, comments in signed text, 1-3 assertions, two AttributeStatements, 6 attribute shapes (incl. one Name on several Attribute elements), 6 AuthnStatement shapes, InResponseTo, 12 NameID strings, 12 attribute-value strings, 7 attribute-valued strings, InclusiveNamespaces prefix list, base64 of digest/signature/certificate wrapped at 64 columns); each lexical re-layout is machine-checked to preserve the parse; non-trivial = accepted and compared field-for-field with the generating spec; distinct = distinct case"
+	r.Rule = "full product signing placement(3) x signature method(4) x digest(4) x canonicaliser(6) on the default document, plus the full product (placement both) Response canonicaliser(6) x assertion canonicaliser(same + 6) x signed comments(3) x 1-2 assertions x which assertions carry their own signature(3) x InclusiveNamespaces list(2), plus every combination of <=2 (quick) / <=3 (thorough) deviations over 31 layout/content dimensions (no AttributeStatement at all with AllowMissingAttributes, placement, c14n, a different assertion c14n, partially signed assertions, 4 prefix styles, pretty-printing, DEFLATE, 11 lexical re-layouts, comments in signed text, 1-3 assertions, two AttributeStatements, 7 attribute shapes (incl. one Name on several Attribute elements, one attribute with 600 values), 6 AuthnStatement shapes, InResponseTo, 12 NameID strings, 12 attribute-value strings, 7 attribute-valued strings, InclusiveNamespaces prefix list, base64 of digest/signature/certificate wrapped at 64 columns); each lexical re-layout is machine-checked to preserve the parse; non-trivial = accepted and compared field-for-field with the generating spec; distinct = distinct case"
 	r.Assume("goxmldsig canonicalisers used by the harness signer", "etree parser/canonical writer as harness DOM", "sizes stay below goxmldsig's 1000-element traversal cap")
 	cases := c08Cases(r)
 	r.State(len(cases))
